@@ -43,6 +43,9 @@ Definition pfirst (c:ascii) : bool :=
 Definition starter (c:ascii) : bool := idstart c || digit c || Ascii.eqb c LP || pfirst c.
 Definition bad (c:ascii) : bool := symc c && negb (pfirst c).
 Definition hd_is (P:ascii->bool) (s:text) : Prop := exists c r, s = c :: r /\ P c = true.
+(* what may follow an operator token: optional blanks, then the start of an operand *)
+Definition after_op (s:text) : Prop := hd_is starter (skip_sp s).
+Definition blanks (s:text) : Prop := forallb is_sp s = true.
 
 Variable np : nat -> expr -> bool.       (* parenthesisation policy of the printer *)
 Definition must_paren (ctx:nat) (e:expr) : bool :=
@@ -163,9 +166,9 @@ Hypothesis HIsym : forall l t o, In (l,t,o) itab -> hd_is symc t.
 Hypothesis HPpos : forall u, exists pre post, ptab = pre ++ (lu u, tu u, u) :: post /\
   forall l t u', In (l,t,u') pre -> forall s, strip t (tu u ++ s) = None.
 Hypothesis HIpos : forall o, exists pre post, itab = pre ++ (lb o, tb o, o) :: post /\
-  forall l t o', In (l,t,o') pre -> forall s, hd_is starter s ->
+  forall l t o', In (l,t,o') pre -> forall s, after_op s ->
     strip t (tb o ++ s) = None \/ exists r, strip t (tb o ++ s) = Some r /\ hd_is bad r.
-Hypothesis HIstop : forall o minp s l t o', lb o < minp -> hd_is starter s -> In (l,t,o') itab -> minp <= l ->
+Hypothesis HIstop : forall o minp s l t o', lb o < minp -> after_op s -> In (l,t,o') itab -> minp <= l ->
     strip t (tb o ++ s) = None \/ exists r, strip t (tb o ++ s) = Some r /\ hd_is bad r.
 
 (* ---------------- small facts ---------------- *)
@@ -233,20 +236,26 @@ Definition neutral (rest:text) : Prop :=
   hd_ok (fun c => negb (idch c)) rest = true /\
   match skip_sp rest with c :: _ => Ascii.eqb c LP = false /\ symc c = false | [] => True end.
 Definition stop_ok (minp:nat) (rest:text) : Prop :=
-  rest = [] \/ (exists r, rest = RP :: r) \/ (exists o r, rest = tb o ++ r /\ lb o < minp /\ hd_is starter r) \/ neutral rest.
+  rest = [] \/ (exists sp r, rest = sp ++ RP :: r /\ blanks sp) \/
+  (exists sp o r, rest = sp ++ tb o ++ r /\ blanks sp /\ lb o < minp /\ after_op r) \/ neutral rest.
 Definition rest_ok (ctx:nat) (rest:text) : Prop :=
-  rest = [] \/ (exists r, rest = RP :: r) \/ (exists o r, rest = tb o ++ r /\ lb o <= ctx /\ hd_is starter r) \/ neutral rest.
+  rest = [] \/ (exists sp r, rest = sp ++ RP :: r /\ blanks sp) \/
+  (exists sp o r, rest = sp ++ tb o ++ r /\ blanks sp /\ lb o <= ctx /\ after_op r) \/ neutral rest.
 
 Lemma rest_stop ctx minp rest : rest_ok ctx rest -> ctx < minp -> stop_ok minp rest.
 Proof.
-  intros [H|[H|[(o & r & H1 & H2 & H3)|H]]] Hlt; [left|right;left|right;right;left|right;right;right]; auto.
-  exists o, r. repeat split; auto; lia.
+  intros [H|[H|[(sp & o & r & H1 & Hb & H2 & H3)|H]]] Hlt; [left|right;left|right;right;left|right;right;right]; auto.
+  exists sp, o, r. repeat split; auto; lia.
 Qed.
 Lemma rest_up ctx ctx' rest : rest_ok ctx rest -> ctx <= ctx' -> rest_ok ctx' rest.
 Proof.
-  intros [H|[H|[(o & r & H1 & H2 & H3)|H]]] Hle; [left|right;left|right;right;left|right;right;right]; auto.
-  exists o, r. repeat split; auto; lia.
+  intros [H|[H|[(sp & o & r & H1 & Hb & H2 & H3)|H]]] Hle; [left|right;left|right;right;left|right;right;right]; auto.
+  exists sp, o, r. repeat split; auto; lia.
 Qed.
+Lemma rest_rp r : forall ctx, rest_ok ctx (RP :: r).
+Proof. intros ctx. right; left. exists [], r. split; reflexivity. Qed.
+Lemma stop_rp r : forall m, stop_ok m (RP :: r).
+Proof. intros m. right; left. exists [], r. split; reflexivity. Qed.
 
 Lemma in_itab o : In (lb o, tb o, o) itab.
 Proof. destruct (HIpos o) as (pre & post & -> & _). apply in_or_app. right. left. reflexivity. Qed.
@@ -256,19 +265,31 @@ Proof. destruct (HPpos u) as (pre & post & -> & _). apply in_or_app. right. left
 Lemma tb_hd o r : exists c t, tb o ++ r = c :: t /\ symc c = true.
 Proof. destruct (HIsym _ _ _ (in_itab o)) as (c & t & E & H). rewrite E. exists c, (t ++ r). split; [reflexivity|exact H]. Qed.
 
+Lemma skip_blanks sp r : blanks sp -> skip_sp (sp ++ r) = skip_sp r.
+Proof.
+  unfold blanks. induction sp as [|c sp IH]; intros H; [reflexivity|]. cbn [forallb] in H. apply andb_prop in H. destruct H as (Hc & H).
+  cbn [app Climb.skip_sp]. rewrite Hc. apply IH. exact H.
+Qed.
+Lemma blanks_hd_not_idch sp r : blanks sp -> hd_ok (fun c => negb (idch c)) r = true -> hd_ok (fun c => negb (idch c)) (sp ++ r) = true.
+Proof.
+  unfold blanks. destruct sp as [|c sp]; intros H Hr; [exact Hr|]. cbn [forallb] in H. apply andb_prop in H. destruct H as (Hc & _).
+  cbn. destruct (idch c) eqn:E; [apply Hidch_sp in E; congruence | reflexivity].
+Qed.
+
 Lemma rest_not_idch ctx rest : rest_ok ctx rest -> hd_ok (fun c => negb (idch c)) rest = true.
 Proof.
-  intros [->|[[r ->]|[(o & r & -> & _)|(H & _)]]]; [reflexivity| cbn; destruct HRP as [-> _]; reflexivity | | exact H].
-  destruct (tb_hd o r) as (c & t & -> & H). cbn. apply Hsym in H. destruct H as [-> _]. reflexivity.
+  intros [->|[(sp & r & -> & Hb)|[(sp & o & r & -> & Hb & _)|(H & _)]]]; [reflexivity | | | exact H].
+  - apply blanks_hd_not_idch; [exact Hb|]. cbn. destruct HRP as [-> _]. reflexivity.
+  - apply blanks_hd_not_idch; [exact Hb|]. destruct (tb_hd o r) as (c & t & -> & H). cbn. apply Hsym in H. destruct H as [-> _]. reflexivity.
 Qed.
 
 Lemma rest_not_lp ctx rest : rest_ok ctx rest ->
   match skip_sp rest with c :: _ => Ascii.eqb c LP = false | [] => True end.
 Proof.
-  intros [->|[[r ->]|[(o & r & -> & _)|(_ & H)]]].
+  intros [->|[(sp & r & -> & Hb)|[(sp & o & r & -> & Hb & _)|(_ & H)]]].
   - exact I.
-  - rewrite skip_nonsp by tauto. tauto.
-  - destruct (tb_hd o r) as (c & t & -> & H). pose proof (Hsym _ H) as Hs. rewrite skip_nonsp by tauto. tauto.
+  - rewrite skip_blanks by exact Hb. rewrite skip_nonsp by tauto. tauto.
+  - rewrite skip_blanks by exact Hb. destruct (tb_hd o r) as (c & t & -> & H). pose proof (Hsym _ H) as Hs. rewrite skip_nonsp by tauto. tauto.
   - destruct (skip_sp rest); [exact I | tauto].
 Qed.
 
@@ -280,14 +301,15 @@ Proof.
     assert (IH' : try_infix (climb f) minp tl (skip_sp rest) = None) by (apply IH; intros e He; apply Hsub; right; exact He).
     assert (Hin : In (l,t,o') itab) by (apply Hsub; left; reflexivity).
     destruct (Nat.leb_spec minp l) as [Hle|Hgt]; [|exact IH'].
-    destruct H as [->|[[r ->]|[(o & r & -> & Hlt & Hst)|(_ & Hn)]]].
+    destruct H as [->|[(sp & r & -> & Hb)|[(sp & o & r & -> & Hb & Hlt & Hst)|(_ & Hn)]]].
     - cbn [Climb.skip_sp]. rewrite strip_nil by (eapply HIsym; eauto). exact IH'.
-    - rewrite skip_nonsp in * by tauto. rewrite strip_hd_ne; [exact IH' | eapply HIsym; eauto |].
+    - rewrite skip_blanks in * by exact Hb. rewrite skip_nonsp in * by tauto. rewrite strip_hd_ne; [exact IH' | eapply HIsym; eauto |].
       destruct (symc RP) eqn:E; [apply Hsym in E; destruct E as (_&_&_&_&_&E); rewrite Ascii.eqb_refl in E; discriminate | reflexivity].
-    - destruct (tb_hd o r) as (c & t0 & E & Hc). pose proof (Hsym _ Hc) as Hs.
+    - rewrite skip_blanks in * by exact Hb.
+      destruct (tb_hd o r) as (c & t0 & E & Hc). pose proof (Hsym _ Hc) as Hs.
       assert (Esk : skip_sp (tb o ++ r) = tb o ++ r) by (rewrite E; apply skip_nonsp; tauto). rewrite Esk in *.
-      destruct (HIstop o minp r l t o' Hlt Hst Hin Hle) as [->|(r' & -> & Hb)]; [exact IH'|].
-      destruct Hb as (c' & r'' & -> & Hb). rewrite skip_nonsp by (apply bad_nonsp; exact Hb).
+      destruct (HIstop o minp r l t o' Hlt Hst Hin Hle) as [->|(r' & -> & Hb')]; [exact IH'|].
+      destruct Hb' as (c' & r'' & -> & Hb'). rewrite skip_nonsp by (apply bad_nonsp; exact Hb').
       rewrite climb_fails_bad by (exists c', r''; auto). exact IH'.
     - destruct (skip_sp rest) as [|c r] eqn:Es.
       + rewrite strip_nil by (eapply HIsym; eauto). exact IH'.
@@ -356,7 +378,7 @@ Proof.
     - intros rec. unfold Climb.try_func. rewrite H_id_fail; [reflexivity|]. cbn. destruct HLP as (_ & -> & _). reflexivity.
     - apply PT_mk with (r := RP :: rest); [| apply skip_nonsp; tauto].
       rewrite starter_skip by apply Hst.
-      apply NP; [right; left; eauto|]. apply L_stop. apply stop_none. right; left; eauto. }
+      apply NP; [apply rest_rp|]. apply L_stop. apply stop_none. apply stop_rp. }
   induction e as [n|k|n a IHa|o l IHl r IHr|u x IHx]; intros Hwf ctx minp rest res Hm Hok HL; cbn [wf] in Hwf.
   - (* identifier *)
     cbn [render needs_paren]. destruct (H_id_hd n Hwf) as (c & t & En & Hc).
@@ -389,7 +411,7 @@ Proof.
     + apply skip_nonsp. tauto.
     + apply PT_mk with (r := RP :: rest); [| apply skip_nonsp; tauto].
       rewrite starter_skip by (apply render_starter, Ha).
-      apply IHa; [exact Ha | lia | right; left; eauto |]. apply L_stop, stop_none. right; left; eauto.
+      apply IHa; [exact Ha | lia | apply rest_rp |]. apply L_stop, stop_none. apply stop_rp.
   - (* binary *)
     destruct Hwf as [Hl Hr].
     assert (NP : forall ctx' minp' rest' res', minp' <= ctx' -> ctx' <= lb o -> rest_ok ctx' rest' ->
@@ -397,12 +419,13 @@ Proof.
                Parses minp' ((render (lb o) l ++ tb o ++ render (S (lb o)) r) ++ rest') res').
     { intros ctx' minp' rest' res' Hm' Hge Hok' HL'. rewrite <- !app_assoc.
       assert (Hst : hd_is starter (render (S (lb o)) r ++ rest')) by (apply render_starter, Hr).
-      apply IHl; [exact Hl | lia | right; right; left; exists o, (render (S (lb o)) r ++ rest'); auto |].
+      apply IHl; [exact Hl | lia | right; right; left; exists [], o, (render (S (lb o)) r ++ rest'); repeat split; auto; unfold after_op; rewrite starter_skip by exact Hst; exact Hst |].
       eapply L_step; [|exact HL'].
       destruct (tb_hd o (render (S (lb o)) r ++ rest')) as (c & t & E & Hc).
       rewrite E, skip_nonsp by (apply Hsym in Hc; tauto). rewrite <- E.
       destruct (HIpos o) as (pre & post & Etab & Hpre). rewrite Etab.
-      apply tryI_pre; [intros l0 t0 o0 Hin; eapply Hpre; eauto|].
+      assert (Hao : after_op (render (S (lb o)) r ++ rest')) by (unfold after_op; rewrite starter_skip by exact Hst; exact Hst).
+      apply tryI_pre; [intros l0 t0 o0 Hin; eapply Hpre; [exact Hin | exact Hao]|].
       eapply TI_hit; [lia | apply strip_app |]. rewrite starter_skip by exact Hst.
       assert (Hok2 : rest_ok (S (lb o)) rest').
       { eapply rest_up; [exact Hok' | lia]. }
@@ -616,4 +639,174 @@ Proof.
   rewrite <- (climb_enough (S (S (length (render 0 e ++ rest)))) 0 (render 0 e ++ rest) ltac:(lia) n).
   apply Hnf. lia.
 Qed.
+
+(* ---------------- surface variation: blanks at every site where the grammar skips them, and any
+   number of redundant parentheses ---------------- *)
+Inductive dexpr :=
+| DId (n : text) | DNum (k : N)
+| DF (n : text) (s0 s1 : text) (a : dexpr) (s2 : text)      (* n s0 ( s1 a s2 ) *)
+| DB (o : binop) (l : dexpr) (s1 s2 : text) (r : dexpr)     (* l s1 op s2 r *)
+| DU (u : unop) (x : dexpr)                                  (* op x : no blank after a prefix operator *)
+| DP (s1 : text) (x : dexpr) (s2 : text).                    (* ( s1 x s2 ) *)
+Fixpoint erase (d : dexpr) : expr :=
+  match d with
+  | DId n => EId n | DNum k => ENum k | DF n _ _ a _ => EF n (erase a)
+  | DB o l _ _ r => EB o (erase l) (erase r) | DU u x => EU u (erase x) | DP _ x _ => erase x
+  end.
+Fixpoint drender (d : dexpr) : text :=
+  match d with
+  | DId n => n
+  | DNum k => num_render k
+  | DF n s0 s1 a s2 => n ++ s0 ++ LP :: s1 ++ drender a ++ s2 ++ [RP]
+  | DB o l s1 s2 r => drender l ++ s1 ++ tb o ++ s2 ++ drender r
+  | DU u x => tu u ++ drender x
+  | DP s1 x s2 => LP :: s1 ++ drender x ++ s2 ++ [RP]
+  end.
+(* well-formed in a position of level ctx: blanks are blanks, and an operator that binds more loosely than
+   its position allows stands inside parentheses *)
+Fixpoint dwf (ctx : nat) (d : dexpr) : Prop :=
+  match d with
+  | DId n => wf_id n
+  | DNum k => wf_num k
+  | DF n s0 s1 a s2 => wf_id n /\ blanks s0 /\ blanks s1 /\ blanks s2 /\ dwf 0 a
+  | DB o l s1 s2 r => ctx <= lb o /\ blanks s1 /\ blanks s2 /\ dwf (lb o) l /\ dwf (S (lb o)) r
+  | DU u x => ctx <= lu u /\ dwf (S (lu u)) x
+  | DP s1 x s2 => blanks s1 /\ blanks s2 /\ dwf 0 x
+  end.
+
+Lemma tu_starter u r : hd_is starter (tu u ++ r).
+Proof.
+  destruct (HPsym _ _ _ (in_ptab u)) as (c & t & E & H). rewrite E. eexists c, _. split; [reflexivity|].
+  unfold starter. replace (pfirst c) with true; [rewrite !orb_true_r; reflexivity|]. symmetry.
+  unfold pfirst. apply existsb_exists. exists (lu u, tu u, u). split; [apply in_ptab|]. cbn. rewrite E. apply Ascii.eqb_refl.
+Qed.
+Lemma lp_starter r : hd_is starter (LP :: r).
+Proof. eexists LP, _. split; [reflexivity|]. unfold starter. rewrite Ascii.eqb_refl, !orb_true_r. reflexivity. Qed.
+
+Lemma drender_starter d : forall ctx, dwf ctx d -> forall rest, hd_is starter (drender d ++ rest).
+Proof.
+  induction d as [n|k|n s0 s1 a IHa s2|o l IHl s1 s2 r IHr|u x IHx|s1 x IHx s2]; intros ctx Hwf rest; cbn [dwf drender] in *.
+  - destruct (H_id_hd n Hwf) as (c & t & -> & H). exists c, (t ++ rest). split; [reflexivity|]. unfold starter. rewrite H. reflexivity.
+  - destruct (H_num_hd k Hwf) as (c & t & -> & H). exists c, (t ++ rest). split; [reflexivity|]. unfold starter. rewrite H, orb_true_r. reflexivity.
+  - destruct Hwf as (Hn & _). destruct (H_id_hd n Hn) as (c & t & -> & H). eexists c, _. split; [reflexivity|]. unfold starter. rewrite H. reflexivity.
+  - destruct Hwf as (_ & _ & _ & Hl & _). rewrite <- app_assoc. eapply IHl. exact Hl.
+  - rewrite <- app_assoc. apply tu_starter.
+  - apply lp_starter.
+Qed.
+
+Lemma blanks_rp_rest sp r ctx : blanks sp -> rest_ok ctx (sp ++ RP :: r).
+Proof. intros H. right; left. exists sp, r. auto. Qed.
+Lemma blanks_rp_stop sp r m : blanks sp -> stop_ok m (sp ++ RP :: r).
+Proof. intros H. right; left. exists sp, r. auto. Qed.
+
+Theorem drender_parses : forall d ctx minp rest res,
+  dwf ctx d -> minp <= ctx -> rest_ok ctx rest -> LoopR minp (erase d) rest res -> Parses minp (drender d ++ rest) res.
+Proof.
+  (* a parenthesised group "( s1 body s2 )" whose body parses at level 0 *)
+  assert (GROUP : forall e body s1 s2 minp rest res, blanks s1 -> blanks s2 ->
+      (forall rest' res', rest_ok 0 rest' -> LoopR 0 e rest' res' -> Parses 0 (body ++ rest') res') ->
+      (forall rest', hd_is starter (body ++ rest')) ->
+      LoopR minp e rest res -> Parses minp ((LP :: s1 ++ body ++ s2 ++ [RP]) ++ rest) res).
+  { intros e body s1 s2 minp rest res B1 B2 NP Hst HL.
+    replace ((LP :: s1 ++ body ++ s2 ++ [RP]) ++ rest) with (LP :: s1 ++ body ++ s2 ++ RP :: rest)
+      by (cbn [app]; rewrite <- !app_assoc; reflexivity).
+    econstructor; [|exact HL]. eapply Pre_paren; [apply lp_prefix_none | | reflexivity |].
+    - intros rec. unfold Climb.try_func. rewrite H_id_fail; [reflexivity|]. cbn. destruct HLP as (_ & -> & _). reflexivity.
+    - apply PT_mk with (r := s2 ++ RP :: rest); [| rewrite skip_blanks by exact B2; apply skip_nonsp; tauto].
+      rewrite skip_blanks by exact B1. rewrite starter_skip by apply Hst.
+      apply NP; [apply blanks_rp_rest; exact B2|]. apply L_stop. apply stop_none. apply blanks_rp_stop; exact B2. }
+  induction d as [n|k|n s0 s1 a IHa s2|o l IHl s1 s2 r IHr|u x IHx|s1 x IHx s2]; intros ctx minp rest res Hwf Hm Hok HL;
+    cbn [dwf drender erase] in *.
+  - (* identifier *)
+    destruct (H_id_hd n Hwf) as (c & t & En & Hc).
+    assert (Hid : id_parse (n ++ rest) = Some (n, rest)) by (apply H_id_ok; [exact Hwf | eapply rest_not_idch; eauto]).
+    econstructor; [|exact HL]. rewrite En in *. cbn [app] in *.
+    apply Pre_id; [apply idstart_prefix_none, Hc | | | | exact Hid].
+    + intros rec. unfold Climb.try_func. rewrite Hid. pose proof (rest_not_lp _ _ Hok) as Hl.
+      destruct (skip_sp rest) as [|d r']; [reflexivity|]. rewrite Hl. reflexivity.
+    + intros rec. unfold Climb.try_paren. destruct (Ascii.eqb_spec c LP) as [->|]; [|reflexivity].
+      destruct HLP as (_ & E & _). congruence.
+    + apply H_num_fail. right. exact Hc.
+  - (* number *)
+    destruct (H_num_hd k Hwf) as (c & t & En & Hc).
+    assert (Hn : num_parse (num_render k ++ rest) = Some (k, rest)) by (apply H_num_ok; [exact Hwf | eapply rest_not_idch; eauto]).
+    econstructor; [|exact HL]. rewrite En in *. cbn [app] in *.
+    assert (Hns : idstart c = false).
+    { destruct (idstart c) eqn:E; [apply Hidstart in E; destruct E; congruence | reflexivity]. }
+    apply Pre_num; [apply digit_prefix_none, Hc | | | exact Hn].
+    + intros rec. unfold Climb.try_func. rewrite H_id_fail; [reflexivity|]. cbn. rewrite Hns. reflexivity.
+    + intros rec. unfold Climb.try_paren. destruct (Ascii.eqb_spec c LP) as [->|]; [|reflexivity].
+      destruct HLP as (_ & _ & E & _). congruence.
+  - (* function call with blanks *)
+    destruct Hwf as (Hn & B0 & B1 & B2 & Ha).
+    replace ((n ++ s0 ++ LP :: s1 ++ drender a ++ s2 ++ [RP]) ++ rest) with (n ++ (s0 ++ LP :: s1 ++ drender a ++ s2 ++ RP :: rest))
+      by (rewrite <- !app_assoc; cbn [app]; rewrite <- !app_assoc; reflexivity).
+    destruct (H_id_hd n Hn) as (c & t & En & Hc).
+    econstructor; [|exact HL].
+    change (EF n (erase a), rest) with (EF n (fst (erase a, rest)), snd (erase a, rest)).
+    eapply Pre_func with (r := s0 ++ LP :: s1 ++ drender a ++ s2 ++ RP :: rest).
+    + rewrite En. cbn [app]. apply idstart_prefix_none, Hc.
+    + apply H_id_ok; [exact Hn|]. apply blanks_hd_not_idch; [exact B0|]. cbn. destruct HLP as [-> _]. reflexivity.
+    + rewrite skip_blanks by exact B0. apply skip_nonsp. tauto.
+    + apply PT_mk with (r := s2 ++ RP :: rest); [| rewrite skip_blanks by exact B2; apply skip_nonsp; tauto].
+      rewrite skip_blanks by exact B1. rewrite starter_skip by (eapply drender_starter; exact Ha).
+      apply IHa with (ctx := 0); [exact Ha | lia | apply blanks_rp_rest; exact B2 |]. apply L_stop, stop_none. apply blanks_rp_stop; exact B2.
+  - (* binary with blanks around the operator *)
+    destruct Hwf as (Hge & B1 & B2 & Hl & Hr).
+    replace ((drender l ++ s1 ++ tb o ++ s2 ++ drender r) ++ rest) with (drender l ++ (s1 ++ tb o ++ (s2 ++ drender r ++ rest)))
+      by (rewrite <- !app_assoc; reflexivity).
+    assert (Hst : hd_is starter (drender r ++ rest)) by (eapply drender_starter; exact Hr).
+    assert (Hao : after_op (s2 ++ drender r ++ rest)).
+    { unfold after_op. rewrite skip_blanks by exact B2. rewrite starter_skip by exact Hst. exact Hst. }
+    apply IHl with (ctx := lb o); [exact Hl | lia | right; right; left; exists s1, o, (s2 ++ drender r ++ rest); repeat split; auto |].
+    eapply L_step; [|exact HL].
+    rewrite skip_blanks by exact B1.
+    destruct (tb_hd o (s2 ++ drender r ++ rest)) as (c & t & E & Hc).
+    rewrite E, skip_nonsp by (apply Hsym in Hc; tauto). rewrite <- E.
+    destruct (HIpos o) as (pre & post & Etab & Hpre). rewrite Etab.
+    apply tryI_pre; [intros l0 t0 o0 Hin; eapply Hpre; [exact Hin | exact Hao]|].
+    eapply TI_hit; [lia | apply strip_app |]. rewrite skip_blanks by exact B2. rewrite starter_skip by exact Hst.
+    apply IHr with (ctx := S (lb o)); [exact Hr | lia | eapply rest_up; [exact Hok | lia] |]. apply L_stop, stop_none.
+    eapply rest_stop; [exact Hok | lia].
+  - (* unary *)
+    destruct Hwf as (Hge & Hx). rewrite <- app_assoc.
+    econstructor; [|exact HL]. apply Pre_un.
+    destruct (HPpos u) as (pre & post & Etab & Hpre). rewrite Etab.
+    apply tryP_pre; [intros l0 t0 u0 Hin; eapply Hpre; eauto|].
+    eapply TP_hit; [apply strip_app|].
+    apply IHx with (ctx := S (lu u)); [exact Hx | lia | eapply rest_up; [exact Hok | lia] |]. apply L_stop, stop_none.
+    eapply rest_stop; [exact Hok | lia].
+  - (* redundant or required parentheses *)
+    destruct Hwf as (B1 & B2 & Hx).
+    eapply GROUP; [exact B1 | exact B2 | | | exact HL].
+    + intros rest' res' Hok' HL'. apply IHx with (ctx := 0); [exact Hx | lia | exact Hok' | exact HL'].
+    + intros rest'. eapply drender_starter. exact Hx.
+Qed.
+
+(** with the fuel the model uses, alone and in a neutral context *)
+Corollary droundtrip_ctx_fuel d rest : dwf 0 d -> neutral rest ->
+  climb (S (S (length (drender d ++ rest)))) 0 (drender d ++ rest) = Some (erase d, rest).
+Proof.
+  intros Hwf Hn. destruct complete as [C _].
+  assert (HP : Parses 0 (drender d ++ rest) (erase d, rest)).
+  { apply drender_parses with (ctx := 0); [exact Hwf | lia | right; right; right; exact Hn |]. apply L_stop, stop_none. right; right; right; exact Hn. }
+  destruct (C _ _ _ HP) as (n & Hnf).
+  rewrite <- (climb_enough (S (S (length (drender d ++ rest)))) 0 (drender d ++ rest) ltac:(lia) n).
+  apply Hnf. lia.
+Qed.
+Corollary droundtrip_fuel d : dwf 0 d -> climb (S (S (length (drender d)))) 0 (drender d) = Some (erase d, []).
+Proof.
+  intros Hwf. destruct complete as [C _].
+  assert (HP : Parses 0 (drender d ++ []) (erase d, [])).
+  { apply drender_parses with (ctx := 0); [exact Hwf | lia | left; reflexivity |]. apply L_stop, stop_none. left; reflexivity. }
+  rewrite app_nil_r in HP. destruct (C _ _ _ HP) as (n & Hnf).
+  rewrite <- (climb_enough (S (S (length (drender d)))) 0 (drender d) ltac:(lia) n).
+  apply Hnf. lia.
+Qed.
 End ClimbProofs.
+Arguments DId {binop unop}.
+Arguments DNum {binop unop}.
+Arguments DF {binop unop}.
+Arguments DB {binop unop}.
+Arguments DU {binop unop}.
+Arguments DP {binop unop}.
